@@ -15,7 +15,7 @@ def initial_heap(prog, fmt):
         wc = prog.get('%s::Reader::with_capacity' % fmt)
     except KeyError:
         return None
-    h = Heap(state='?', complete=False, setc='old', dirty=False, pushed=False)
+    h = Heap(state='?', complete=False, setc='old', dirty=False, pushed=False, bufclr=False)
     if fmt == 'fastq':
         h['inc'] = '?'
     for blk in wc.blocks:
@@ -67,6 +67,7 @@ def explore(prog, fmt):
             hin['setc'] = 'old'
             hin['dirty'] = False
             hin['pushed'] = False
+            hin['bufclr'] = False
             args = [('rself',)]
             for e in extra:
                 if e == 'rset':
@@ -166,12 +167,18 @@ def run(prog, R):
             n = 0
             for x, t in b.calls():
                 cb = prog.local_callee_body(t.callee)
-                if cb is not None and (cb.path in it.advance or cb.path in it.locate):
+                if cb is not None and cb.path in it.locate:
                     n += 1
-                    kind = 'advance' if cb.path in it.advance else 'search'
-                    bad = [v for v in it.violations if v[1] == b.key and str(t.line) in v[3].split(' ')[0]]
+                    bad = [v for v in it.violations if v[1] == b.key and v[2] == 'search-while-record-pending']
                     if not bad:
-                        R.add('FSM-P', b, '%s-call#%d' % (kind, n), True, site(b, t.line), '%s call respects the protocol in every reachable abstract state' % kind)
+                        R.add('FSM-P', b, 'search-call#%d' % n, True, site(b, t.line), 'search call respects the protocol in every reachable abstract state')
+            for blk in b.blocks:
+                for st in blk.stmts:
+                    if id(st) in it.advance_stmts:
+                        n += 1
+                        bad = [v for v in it.violations if v[2] == 'advance-without-located-record']
+                        if not bad:
+                            R.add('FSM-P', b, 'advance#%d' % n, True, site(b, st.line), 'the advance over a record is only reached with a located record pending, in every reachable abstract state')
     for fmt in ('fasta', 'fastq'):
         try:
             b = prog.get('%s::Reader::read_record_set_exact' % fmt)
@@ -187,7 +194,7 @@ def run(prog, R):
                 if not bad:
                     R.add('FSM-S5', b, 'resume-call#%d' % n, True, site(b, t.line), 'in every reachable abstract state the buffer may only be moved while the set is still empty')
     R.floor('FSM-S5', 2)
-    R.floor('FSM-P', 15)
+    R.floor('FSM-P', 12)
     R.floor('FSM-E', 8)
     R.floor('FSM-T', 3)
     R.floor('FSM-S1', 4)
@@ -272,59 +279,23 @@ def flow_rules(prog, R):
                     ok = False
         R.add('FSM-D', b, 'delegates', ok, site(b, b.span['lo']), 'single call of %s whose result is returned: %s' % (target, ok))
     R.floor('FSM-D', 8)
-    # ---------------- FSM-S4
+    # ---------------- FSM-S4 (events of the abstract interpreter; robust to helper extraction)
     for fmt in ('fasta', 'fastq'):
+        ex = _cache.get(fmt)
+        if ex is None:
+            continue
+        it = ex['interp']
         try:
             b = prog.get('%s::Reader::read_record_set_exact' % fmt)
         except KeyError:
             R.anchor_missing('FSM-S4', '%s::Reader::read_record_set_exact' % fmt)
             continue
-        du = DefUse(b)
-        adt = prog.adts.get('%s::RecordSet' % fmt)
-        pos_fields = [f['name'] for f in adt['variants'][0]['fields'] if 'BufferPosition' in f['ty']]
-        cnt_fields = [f['name'] for f in adt['variants'][0]['fields'] if f['ty'] == 'usize']
-        buf_fields = [f['name'] for f in adt['variants'][0]['fields'] if f['ty'].replace(' ', '') == 'std::vec::Vec<u8>']
-
-        def on_field(op, names):
-            rs = roots_of(b, op, du, through_calls=identity_through)
-            return bool(rs) and all(r[0] == 'arg' and r[1] == 2 and r[-1] and r[-1][0][1] in names for r in rs)
-        # emptying events
-        empt = set()
-        for x, t in b.calls():
-            if t.callee and t.callee.name == 'clear' and t.args and on_field(t.args[0], pos_fields):
-                empt.add(x)
-        for blk in b.blocks:
-            for s in blk.stmts:
-                if s.k == 'assign' and s.place.local == 2 and [p['name'] for p in s.place.proj if p['k'] == 'field'] in [[c] for c in cnt_fields] \
-                        and s.rv.k == 'use' and s.rv.ops[0].const_int() == 0:
-                    empt.add(blk.idx)
-        pushes = set()
-        for x, t in b.calls():
-            if t.callee and t.callee.name in ('push', 'update', 'insert', 'extend') and t.args and on_field(t.args[0], pos_fields):
-                pushes.add(x)
-        for blk in b.blocks:
-            for s in blk.stmts:
-                if s.k == 'assign' and s.place.local == 2 and [p['name'] for p in s.place.proj if p['k'] == 'field'] in [[c] for c in cnt_fields] \
-                        and not (s.rv.k == 'use' and s.rv.ops[0].const_int() == 0):
-                    pushes.add(blk.idx)
-        reach = b.cfg.reach_from(0, removed=empt, include_start=True)
-        bad = sorted(p for p in pushes if p in reach)
-        R.add('FSM-S4', b, 'old-batch-cleared-first', not bad and bool(empt) and bool(pushes), site(b, b.span['lo']),
-              'a push is reachable before the position list is emptied: %s' % bad)
-        # byte buffer: clear immediately followed by extend(whole reader buffer)
-        ext = [(x, t) for x, t in b.calls() if t.callee and t.callee.name in ('extend', 'extend_from_slice') and t.args and on_field(t.args[0], buf_fields)]
-        clr = [(x, t) for x, t in b.calls() if t.callee and t.callee.name == 'clear' and t.args and on_field(t.args[0], buf_fields)]
-        okb = len(ext) >= 1 and len(clr) >= 1
-        det = ''
-        for (x, t) in ext:
-            src = roots_of(b, t.args[1], du, through_calls=lambda c: 0 if c and c.path in IDENTITY_CALLS else None)
-            whole = bool(src) and all(r[0] == 'call' and (r[1].callee.is_('buffer_redux::BufReader::buffer') or r[1].callee.name == 'get_buf') and not r[-1] for r in src)
-            # every path into the extend passes a clear of the buffer with no other extend in between
-            cb = set(y for y, _ in clr)
-            before = b.cfg.reach_from(0, removed=cb, include_start=True)
-            okb = okb and whole and x not in before
-            det += 'extend(source = whole reader buffer: %s, preceded by clear on every path: %s) ' % (whole, x not in before)
-        R.add('FSM-S4', b, 'bytes-copied-whole-after-clear', okb, site(b, ext[0][1].line if ext else b.span['lo']), det or 'no extend of the byte buffer found')
+        bad = [v for v in it.violations if v[0] == 'FSM-S4']
+        ok_exits = [t for t in ex['trans'] if t[1].startswith('read_record_set_exact') and t[2] == 'Some(Ok)']
+        R.add('FSM-S4', b, 'old-batch-cleared-first', not [v for v in bad if v[2] == 'push-before-old-batch-cleared'] and bool(ok_exits), site(b, b.span['lo']),
+              'in every reachable abstract state the offsets of the previous batch are cleared before the first push')
+        R.add('FSM-S4', b, 'bytes-copied-whole-after-clear', not [v for v in bad if v[2] in ('partial-buffer-copied', 'bytes-appended-without-clear')] and bool(ok_exits), site(b, b.span['lo']),
+              'every Some(Ok) exit copied the whole reader buffer into the cleared byte buffer of the set (checked together with FSM-S1: a set left without this copy is dirty)')
     R.floor('FSM-S4', 4)
     # ---------------- SEEK-1
     refills = refill_fn(prog)
